@@ -158,6 +158,12 @@ func genFaultyConn(r *Rng, dataLen int) rConn {
 	case 6:
 		c.Cut = genCut(r, dataLen)
 		c.End = "w"
+	case 7:
+		// the stream stops early and looks like a clean end (close-delimited body whose connection went
+		// away, or a server that now holds a shorter file), on a successful status
+		c.Cut = genCut(r, dataLen)
+		c.End = "c"
+		c.Status = Pick(r, []int{0, 0, 200, 206})
 	default:
 		c.Cut = genCut(r, dataLen)
 		c.NoBody = r.Chance(20)
@@ -206,6 +212,44 @@ func (retrySuite) Gen(r *Rng, i int, tier string) any {
 			c.Script[0].End = "f"
 		}
 	}
+	// a restart after progress whose body ends CLEANLY after Cut bytes — below / at / above the offset the
+	// reader has reached by then (estimated from the cuts before it): on a 200 answer to a ranged request
+	// a clean end below the offset is evident to the reader (the prefix discard comes up short) and must be
+	// reported as an error; everywhere else the reader cannot tell.
+	if len(c.Script) >= 2 && r.Chance(14) {
+		j := 1 + r.Intn(len(c.Script)-1)
+		if r.Chance(70) {
+			j = 1 + r.Intn(min(2, len(c.Script)-1))
+		}
+		if r.Chance(60) {
+			// make sure there is progress to resume from: a successful first response dropped mid-body
+			f := &c.Script[0]
+			f.Fail, f.Status, f.NoBody, f.End = false, 0, false, "f"
+			if len(data) > 1 {
+				f.Cut = 1 + r.Intn(len(data)-1)
+			}
+		}
+		est := retryEstimateProgress(c.Kind, len(data), c.Script[:j])
+		sc := rConn{End: "c", Chunks: genChunks(r), Eager: r.Chance(30), Status: Pick(r, []int{0, 0, 0, 200, 200, 206})}
+		switch r.Intn(10) {
+		case 0:
+			sc.Cut = 0
+		case 1:
+			sc.Cut = est - 1
+		case 2, 3:
+			sc.Cut = est
+		case 4:
+			sc.Cut = est + 1
+		case 5, 6, 7:
+			sc.Cut = r.Intn(est + 1) // below (or at) the offset
+		default:
+			sc.Cut = est + r.Intn(len(data)-min(est, len(data))+2) // at or above
+		}
+		if sc.Cut < 0 {
+			sc.Cut = 0
+		}
+		c.Script[j] = sc
+	}
 	// the consumer: enough operations to get through the file although every body Read may be capped by
 	// the chunk script and every fault costs a Read, plus a few after the end
 	style := r.Intn(5)
@@ -240,6 +284,113 @@ func (retrySuite) Gen(r *Rng, i int, tier string) any {
 		c.Ops = append(c.Ops, rOp{M: m})
 	}
 	return c
+}
+
+// retryEstimateProgress: the offset a consumer that reads everything has reached after the given
+// connections (only used to aim the cuts of the generator; eager ends make it approximate).
+func retryEstimateProgress(kind string, dataLen int, script []rConn) int {
+	est := 0
+	for _, k := range script {
+		if k.Fail {
+			continue
+		}
+		code := k.Status
+		if code == 0 {
+			switch {
+			case est == 0 || kind == "i":
+				code = 200
+			case kind == "h" && est < dataLen:
+				code = 206
+			default:
+				code = 503
+			}
+		}
+		if code == 206 && est == 0 {
+			code = 200
+		}
+		got := k.Cut
+		switch code {
+		case 200:
+			if got < 0 || got > dataLen {
+				got = dataLen
+			}
+			est = max(est, got)
+		case 206:
+			if got < 0 || est+got > dataLen {
+				got = dataLen - est
+			}
+			est += got
+		}
+	}
+	return min(est, dataLen)
+}
+
+// retryEarlyEnd mirrors Apko.Retry.Conn.cleanEarlyEnd / invisibleEnd for the connection that answered
+// the request with Range offset rng (-1 = no Range): "" = no clean early end on a successful response,
+// "evident" = the reader can tell (asked for offset p, answered 200, fewer than p bytes arrived),
+// "invisible" = it cannot.
+func retryEarlyEnd(kind string, dataLen int, c rConn, rng int) string {
+	if c.Fail || c.End != "c" || c.Cut < 0 {
+		return ""
+	}
+	code := c.Status
+	if code == 0 {
+		switch {
+		case rng < 0 || kind == "i":
+			code = 200
+		case kind == "h" && rng < dataLen:
+			code = 206
+		case kind == "h":
+			code = 416
+		default:
+			code = 503
+		}
+	}
+	if code == 206 && rng < 0 {
+		code = 200
+	}
+	var contentLen int
+	switch code {
+	case 200:
+		contentLen = dataLen
+	case 206:
+		contentLen = max(dataLen-rng, 0)
+	default:
+		return ""
+	}
+	if c.Cut >= contentLen {
+		return ""
+	}
+	if code == 200 && rng >= 0 && c.Cut < rng {
+		return "evident"
+	}
+	return "invisible"
+}
+
+// retryCurrentEnd: the k-th request of the event log is answered by the k-th connection of the script;
+// returns retryEarlyEnd of the connection that answered the most recent request, and the set of
+// early-end classes met on the way.
+func retryCurrentEnd(kind string, dataLen int, script []rConn, events []string) (current string, seen map[string]bool) {
+	seen = map[string]bool{}
+	k := 0
+	for _, e := range events {
+		if !strings.HasPrefix(e, "q") {
+			continue
+		}
+		current = ""
+		if k < len(script) && !strings.HasPrefix(e, "q?") {
+			rng := -1
+			if e != "q-" {
+				rng, _ = strconv.Atoi(e[1:])
+			}
+			current = retryEarlyEnd(kind, dataLen, script[k], rng)
+			if current != "" {
+				seen[current] = true
+			}
+		}
+		k++
+	}
+	return current, seen
 }
 
 func retryOpsProto(ops []rOp) string {
@@ -319,12 +470,6 @@ func (retrySuite) Run(raw json.RawMessage) []Step {
 	if c.SelfTest {
 		return retrySelfTest()
 	}
-	for _, k := range c.Script {
-		if k.End == "c" && k.Cut >= 0 {
-			// outside the recorded assumption (a truncated stream must not look like a clean end): not generated
-			return nil
-		}
-	}
 	ctx := context.Background()
 	var steps []Step
 
@@ -377,6 +522,12 @@ func (retrySuite) Run(raw json.RawMessage) []Step {
 	if len(data) >= 8192 {
 		tags = append(tags, "big")
 	}
+	_, seenEnds := retryCurrentEnd(c.Kind, len(data), c.Script, net.events)
+	for _, cls := range []string{"evident", "invisible"} {
+		if seenEnds[cls] {
+			tags = append(tags, "clean-early-end:"+cls)
+		}
+	}
 	line := strings.Join([]string{"retry.run", c.Kind, c.Data, retryScriptProto(c.Script), retryOpsProto(c.Ops), trace}, "\t")
 	desc := fmt.Sprintf("kind=%s len=%d script=%s ops=%s", c.Kind, len(data), retryScriptProto(c.Script), truncStr(retryOpsProto(c.Ops), 120))
 	steps = append(steps, Step{Line: line, Go: trace, Desc: desc, Tags: tags, Mode: "verdict", Trivial: open == "E" || nreq < 2})
@@ -418,6 +569,10 @@ func (retrySuite) Run(raw json.RawMessage) []Step {
 			switch {
 			case rerr == io.EOF && bytes.Equal(got, data): //nolint:errorlint
 				tag = "fetchpackage:complete"
+			case rerr == io.EOF && bytes.HasPrefix(data, got) && retryWaived(c, net): //nolint:errorlint
+				// the current connection ended early and cleanly where the reader cannot see it (outside the
+				// recorded assumption): a short but otherwise correct download is all that can be asked
+				tag = "fetchpackage:short-invisible-end"
 			case rerr == io.EOF: //nolint:errorlint
 				verdict = fmt.Sprintf("fail:FetchPackage body ended cleanly with %d bytes that differ from the %d server bytes", len(got), len(data))
 			case rerr == nil:
@@ -440,6 +595,8 @@ func (retrySuite) Run(raw json.RawMessage) []Step {
 		switch {
 		case err == nil && bytes.Equal(b, data):
 			tag = "fetchindex:complete"
+		case err == nil && bytes.HasPrefix(data, b) && retryWaived(c, net):
+			tag = "fetchindex:short-invisible-end"
 		case err == nil:
 			verdict = fmt.Sprintf("fail:fetchRepositoryIndex returned %d bytes that differ from the %d server bytes", len(b), len(data))
 		case c.faultFree():
@@ -448,6 +605,13 @@ func (retrySuite) Run(raw json.RawMessage) []Step {
 		steps = append(steps, Step{Line: "retry.e2e\tfetchindex", Go: verdict, Desc: "fetchRepositoryIndex " + desc, Tags: []string{tag}, Mode: "oracle-go", GoSpec: verdict, NoImpl: true, Trivial: true})
 	}
 	return steps
+}
+
+// retryWaived: the connection that answered the most recent request of this download has a clean early
+// end that the reader cannot see (Apko.Retry.Spec.St.waive at the end of the trace).
+func retryWaived(c retryCase, net *retryNet) bool {
+	cur, _ := retryCurrentEnd(c.Kind, len(net.data), c.Script, net.events)
+	return cur == "invisible"
 }
 
 func truncStr(s string, n int) string {
